@@ -8,7 +8,7 @@ for sid in sorted(os.listdir(os.path.join(V, "seeded"))):
     m = json.load(open(os.path.join(V, "seeded", sid, "meta.json")))
     need = (m.get("needs_to_manifest") or "").strip().split("\n")
     # first meaningful line of the README as a summary
-    summ = next((l.strip("# ").strip() for l in need if len(l.strip()) > 30 and not l.startswith("#")), "")[:220]
+    summ = m.get("summary") or next((l.strip("# ").strip() for l in need if len(l.strip()) > 30 and not l.startswith("#")), "")[:220]
     det = m.get("detected_by") or {}
     if det:
         rules = []
@@ -31,7 +31,7 @@ out.append("Changes written by independent sub-agents (each got only the text of
            "change; the agent's demonstration fails with it and passes without it) and kept under `seeded/<id>/`\n"
            "(patch.diff, seed_demo.rs, meta.json). `selftest/run_seeds.py` applies each to a scratch copy and runs the\n"
            "property's check; the rule that reports it is recorded in meta.json.\n")
-out.append("| seed | property | what the change does (agent's words) | reported by |")
+out.append("| seed | property | what the change does | reported by |")
 out.append("|---|---|---|---|")
 out.extend(rows)
 out.append("")
